@@ -494,26 +494,30 @@ func H_C14_object() {
 				sel = append(sel, i)
 			}
 		}
+		// the function returns its argument: the result under a key must then be that field's own value
+		// (a result stored under another field's key shows as soon as two fields of the kind differ)
 		calls := 0
-		cb := func() any { calls++; return 77 }
 		var res Object
 		switch k {
 		case TypeObject:
-			res = o.MapObjects(func(x Object) any { return cb() })
+			res = o.MapObjects(func(x Object) any { calls++; return x })
 		case TypeList:
-			res = o.MapLists(func(x List) any { return cb() })
+			res = o.MapLists(func(x List) any { calls++; return x })
 		case TypeString:
-			res = o.MapStrings(func(x string) any { return cb() })
+			res = o.MapStrings(func(x string) any { calls++; return x })
 		case TypeBool:
-			res = o.MapBools(func(x bool) any { return cb() })
+			res = o.MapBools(func(x bool) any { calls++; return x })
 		case TypeInt:
-			res = o.MapInts(func(x int) any { return cb() })
+			res = o.MapInts(func(x int) any { calls++; return x })
 		default:
-			res = o.MapFloats(func(x float64) any { return cb() })
+			res = o.MapFloats(func(x float64) any { calls++; return x })
 		}
 		ok := calls == len(sel) && res.Count() == len(sel)
 		for _, i := range sel {
-			ok = ok && res.TypeOf(keys[i]) == TypeInt && res.GetInt(keys[i]) == 77
+			ok = ok && res.KeyExists(keys[i])
+			if res.KeyExists(keys[i]) {
+				ok = verifAnd(ok, hSameShallow(hSnapValue(res.TypeOf(keys[i]), res.Get(keys[i]), false), want[i]))
+			}
 		}
 		verifAssert(ok, "Object.MapX calls the function once per field of its kind and stores the result under the same key")
 	}
